@@ -36,6 +36,19 @@ fn main() {
             let only = replay.as_ref().and_then(|r| r.get("case")).and_then(|c| c.as_u64()).or(if a.has("case") { Some(a.u64("case", 0)) } else { None });
             e1::run(seed, shard, nshards, a.u64("cases", if thorough { 600 } else { 60 }), &bias, only, &mut rep);
         }
+        "e1c" => {
+            let only = replay.as_ref().map(|r| {
+                let f = &r["fault"];
+                let fault = if let Some(k) = f.get("crash_at") {
+                    e1c::Fault::CrashAt(k.as_u64().unwrap() as usize)
+                } else {
+                    let d = &f["download_failure"];
+                    e1c::Fault::DownloadFailure { op: d[0].as_u64().unwrap() as usize, block: d[1].as_u64().unwrap() as usize, persistent: d[2].as_bool().unwrap() }
+                };
+                (r["case"].as_u64().unwrap(), fault)
+            });
+            e1c::run(seed, shard, nshards, a.u64("cases", if thorough { 60 } else { 3 }), a.u64("max_points", if thorough { 2000 } else { 400 }) as usize, only, &mut rep);
+        }
         "e2" => {
             let only = replay.as_ref().map(|r| {
                 let name = r["scenario"].as_str().unwrap_or("").to_string();
